@@ -14,18 +14,43 @@ def engine_hash():
         h.update(open(p, 'rb').read())
     return h.hexdigest()[:16]
 
+def _session_id():
+    # the nearest ancestor that is not a python worker / the check wrapper: the process that started the checks
+    try:
+        pid = os.getppid()
+        for _ in range(6):
+            cmd = open(f'/proc/{pid}/cmdline', 'rb').read().replace(b'\0', b' ').decode(errors='replace')
+            if 'mirse.cli' in cmd or cmd.strip().endswith('/check') or ' ./check ' in (' ' + cmd + ' '):
+                pid = int(open(f'/proc/{pid}/stat').read().split(')')[-1].split()[1]); continue
+            return pid
+        return pid
+    except Exception:
+        return os.getppid()
+
 _EH = [None]
 def cached_explore(pp, entry, n, stats_acc, mode='', extra_pc_fn=None):
     """exploration of (harness MIR, entry, n), content-addressed: a hit reuses the result of executing byte-identical
     MIR with the same engine"""
     if _EH[0] is None: _EH[0] = engine_hash()
     key = hashlib.sha256(f'{pp.h.mir_hash()}|{_EH[0]}|{entry}|{n}|{mode}'.encode()).hexdigest()[:32]
-    cdir = os.path.join(harness.WORK, 'cache'); os.makedirs(cdir, exist_ok=True)
+    # the cache lives for one session (the checks started by one parent process, e.g. one runner loop): a new session
+    # explores everything again, so what a check reports does not depend on what earlier sessions left behind
+    session = os.environ.get('VERIF_CACHE_SESSION') or f'ppid{_session_id()}'
+    cdir = os.path.join(harness.WORK, 'cache', session)
+    if not os.path.isdir(cdir):
+        os.makedirs(cdir, exist_ok=True)
+        import shutil
+        base = os.path.join(harness.WORK, 'cache')
+        for d in os.listdir(base):          # drop the caches of sessions that ended long ago
+            p = os.path.join(base, d)
+            try:
+                if p != cdir and time.time() - os.path.getmtime(p) > 6 * 3600: shutil.rmtree(p, ignore_errors=True)
+            except OSError: pass
     path = os.path.join(cdir, key + '.pkl')
     if os.environ.get('VERIF_NOCACHE') != '1' and os.path.exists(path):
         try:
             results, st = pickle.load(open(path, 'rb'))
-            stats_acc['reused_paths'] += len(results)
+            stats_acc['reused_paths'] += len(results); stats_acc['reused_steps'] = stats_acc.get('reused_steps', 0) + st['steps']
             for k in ('fns', 'models'): stats_acc[k] |= set(st[k])
             return results, st, True
         except Exception:
